@@ -192,17 +192,24 @@ class GroupMachine(Machine):
                 ops.append({"op": "rename", "i": rng.randrange(6), "name": "obs%d" % rng.randrange(7)})
             elif u < 0.70:
                 # somebody else re-parents a member (another node adopts it); re-assigning the membership must bring it back
-                ops.append({"op": "steal", "i": rng.randrange(6), "to": rng.choice(["world", "none"])})
+                if rng.random() < 0.5:
+                    ops.append({"op": "set", "attr": "quiet", "kind": rng.choice(["scalar", "list"]),
+                                "values": [rng.random() < 0.3 for _ in range(8)]})
+                ops.append({"op": "steal", "i": rng.randrange(6), "to": rng.choice(["world", "none", "none"])})
+                if rng.random() < 0.6:
+                    ops.append({"op": "observe"})        # observing with a member outside the world fails half-way
                 ops.append({"op": "setobs", "idx": [rng.randrange(6) for _ in range(rng.randint(1, 5))], "as": rng.choice(["list", "tuple"]),
                             "include_members": True})
             elif u < 0.76:
-                ops.append({"op": "index", "i": rng.randint(-7, 7)})
+                ops.append({"op": "index", "i": rng.randint(-7, 7), "np": rng.choice([None, None, "int64", "uint8", "intp"])})
             elif u < 0.80:
                 ops.append({"op": "slice", "a": rng.randint(-3, 4), "b": rng.randint(-3, 6)})
             elif u < 0.86:
                 ops.append({"op": "byname", "name": "obs%d" % rng.randrange(7)})
-            elif u < 0.90:
+            elif u < 0.885:
                 ops.append({"op": "addwrong", "how": rng.choice(["add", "setobs", "setobs-str"]), "pos": rng.randrange(6)})
+            elif u < 0.90:
+                ops.append({"op": "setobs.cyclic", "i": rng.randrange(6), "pos": rng.randrange(6)})
             elif u < 0.93:
                 ops.append({"op": "connect", "classes": [rng.choice(["Power", "Radiance", "SpectralPower", "SpectralRadiance"])
                                                          for _ in range(rng.randint(1, 3))]})
@@ -446,6 +453,35 @@ class GroupMachine(Machine):
             except Exception as e:
                 raise Violation("setobs-refused", c.gname, "assigning observers raised %s: %s" % (type(e).__name__, e))
             detail = op["as"]
+        elif k == "setobs.cyclic":
+            i = op["i"]
+            if i in c.members or c.is_cam:
+                return "noop"
+            c.pool[i].parent = c.world
+            g.parent = c.pool[i]                       # the group now lives under that observer ...
+            val = [c.pool[j] for j in c.members]
+            val.insert(op["pos"] % (len(val) + 1), c.pool[i])
+            env.fault_armed("reject-cyclic")
+            try:
+                g.observers = val                      # ... so adopting it must be refused by the scene graph
+            except Exception:
+                env.fault_fired("reject-cyclic")
+                out = "raised"
+            else:
+                out = "accepted"
+            g.parent = c.world
+            # no atomicity assumed: membership is whatever the group reports (old or new), but it must be consistent
+            now = self._group_members(c)
+            idx = []
+            for o in now:
+                for j, cand in enumerate(c.pool):
+                    if o is cand:
+                        idx.append(j)
+                        break
+                else:
+                    raise Violation("membership", c.gname, "the group lists an observer nobody gave it")
+            c.members = idx
+            detail = out
         elif k == "steal":
             i = op["i"]
             if i not in c.members or c.is_cam:
@@ -650,7 +686,10 @@ class GroupMachine(Machine):
         k = op["op"]
         try:
             if k == "index":
-                got = g[op["i"]]
+                ii = op["i"]
+                if op.get("np") and not c.is_cam and not (op["np"] == "uint8" and ii < 0):
+                    ii = getattr(np, op["np"])(ii)        # an integer that is not a Python int (np.argmax result, ...)
+                got = g[ii]
             elif k == "slice":
                 if c.is_cam:
                     return "noop"
@@ -722,7 +761,20 @@ class GroupMachine(Machine):
     def _do_observe(self, c, op, env):
         g = c.group
         if c.stolen & set(c.members):
-            return "noop"         # a member currently lives in somebody else's sub-tree: observing is the caller's problem
+            # a member currently lives outside the world: observing must fail *and leave every setting as it was*
+            if not any(c.pool[i].parent is None for i in c.stolen & set(c.members)):
+                return "noop"
+            for i in c.members:
+                c.pool[i].pipelines = [CountPipe()]
+                c.pool[i].render_engine = c.engines[0]
+                c.model[i] = self._snapshot_member(c, c.pool[i])
+            try:
+                g.observe()
+            except Exception:
+                env.fault_armed("observe-raises")
+                env.fault_fired("observe-raises")
+                return "raised"          # the audit that follows compares every member attribute with the model
+            raise Violation("observe", c.gname, "group.observe() succeeded although a member is detached from the world")
         pipes = {}
         for i in c.members:
             p = CountPipe()
